@@ -153,7 +153,7 @@ def check(path):
         if missing:
             out.append("C02/flush-complete/%s: %d record(s) produced before the flush not through a finished Export, e.g. %s" % (
                 cls, len(missing), missing[0]))
-        if not decoys and not racing and not any(x[0] > f["call"] and x[1] < f["ret"] for x in exp_flush):
+        if not decoys and not any(x[0] > f["call"] and x[1] < f["ret"] for x in exp_flush):
             out.append("C02/flush-calls-exporter-flush/%s" % cls)
     if shutdowns:
         if not decoys and len(exp_shutdown) != 1:
